@@ -157,10 +157,15 @@ class RealEngine(object):
             vm = {}
             eargs = [self.to_engine(a, vm) for a in targs]
             evars = [vm[v] for v in qvars]
+            given = list(eargs)
             q = self.yp.query(name, eargs)
             for _ in q:
                 names = {}
                 out.append(canon(tuple(_from_engine(v, names, 0) for v in evars)))
+                # the caller's argument list is the caller's: still the same objects at every answer
+                if len(eargs) != len(given) or any(a is not b for a, b in zip(eargs, given)):
+                    out.append(("EXC", "ArgumentListChanged", "query() changed the argument list it was given"))
+                    break
                 if max_answers is not None and len(out) >= max_answers:
                     break
         except Exception as e:          # includes RecursionError
